@@ -26,7 +26,7 @@ EXPLANATION = (
 NOT_DECIDED = ["bytes identical to the embedded file; content type; pixel size", "that no image is invented (relationship parsing is value level)", "which image records a reader filters out or reuses by identity (orphan relationships, per-document caches keyed by object number)"]
 TRUSTED = ["may-raise table (listed in the explanation); string methods, slicing, dataclass constructors and the dimension sniffers are assumed not to raise",
            "CFG path enumeration (cap 4096 paths per loop body; a capped loop is residual)"]
-FLOORS = {"C14-JPEG": 8, "C14-PAIR": 12, "C14-BYTES": 20, "C14-VIEW": 6, "C14-REF": 3, "C14-CHAIN": 8, "C14-TYPE": 3, "C14-HEX": 3}
+FLOORS = {"C14-JPEG": 8, "C14-PAIR": 12, "C14-BYTES": 20, "C14-VIEW": 6, "C14-REF": 3, "C14-CHAIN": 8, "C14-TYPE": 3, "C14-HEX": 3, "C14-ALL": 2}
 
 MAY_RAISE_CALLS = {"read_bytes", "get_image_data", "read_xml_root", "read_text", "read", "open_stream", "fromhex", "unpack", "unpack_from", "b64decode", "a2b_hex", "unhexlify", "decompress"}
 MAY_RAISE_FUNCS = {"int", "float", "bytes.fromhex", "struct.unpack", "struct.unpack_from", "base64.b64decode"}
@@ -669,4 +669,51 @@ def rule_hex(ctx: Ctx) -> RuleReport:
     return rep
 
 
-RULES = [rule_pair, rule_bytes, rule_view, rule_ref, rule_jpeg, rule_chain, rule_type, rule_hex]
+def rule_all(ctx: Ctx) -> RuleReport:
+    """'Every raster image a document places in its body is returned': the DOCX reader returns one image per image relationship of the
+    main part. A relationship may be skipped for what it is (not an image) or for its part (no bytes), never because a separate scan of
+    the body did not come across its drawing -- that scan sees body-level paragraphs only, not cells, text boxes or VML pictures."""
+    rep = RuleReport("C14-ALL", "the loop over the image relationships of a DOCX skips a relationship only on tests of the relationship itself or of the bytes loaded for it")
+    DOCX_ = X + "ms_modern/docx_extractor.py"
+    fi = ctx.p.func(DOCX_, "_extract_images_from_context")
+    rep.unit(fi.key)
+    loops = [l for l in walk_own(fi.node) if isinstance(l, ast.For) and isinstance(l.iter, ast.Call) and isinstance(l.iter.func, ast.Attribute) and l.iter.func.attr == "items"
+             and any(isinstance(c, ast.Call) and _image_ctor(c, image_classes(ctx)) for c in ast.walk(l))]
+    if len(loops) != 1:
+        raise AnalysisError("C14-ALL: the loop over the relationships that builds DocxImage records was not found")
+    l = loops[0]
+    own = {x.id for x in ast.walk(l.target) if isinstance(x, ast.Name)}
+    changed = True
+    while changed:
+        changed = False
+        for a in ast.walk(l):
+            if isinstance(a, ast.Assign) and len(a.targets) == 1:
+                tn = {x.id for x in ast.walk(a.targets[0]) if isinstance(x, ast.Name)}
+                if tn and not tn <= own and any(isinstance(x, ast.Name) and x.id in own for x in ast.walk(a.value)):
+                    own |= tn
+                    changed = True
+    import builtins
+
+    n = 0
+    for cnt in [c for c in ast.walk(l) if isinstance(c, ast.Continue)]:
+        # the test that decides this skip: the innermost `if` whose branch holds the `continue`
+        decider = None
+        for i in ast.walk(l):
+            if isinstance(i, ast.If) and (cnt in i.body or cnt in i.orelse):
+                decider = i
+        if decider is None:
+            continue  # unconditional within a handler etc.: judged by C14-PAIR
+        for c in [norm(decider.test)]:
+            names = {x.id for x in ast.walk(decider.test) if isinstance(x, ast.Name)}
+            foreign = sorted(x for x in names if x not in own and not hasattr(builtins, x) and not x.isupper())
+            n += 1
+            if foreign:
+                rep.fail(Finding("C14-ALL", DOCX_, fi.qual, "relationship skipped on " + anorm(ast.parse(c, mode="eval").body, fi.node), f"an image relationship is skipped under `{c}`, which depends on {foreign} -- something collected elsewhere, not the relationship or its bytes: pictures inside table cells, text boxes and VML pictures are not seen by the scan of the body-level paragraphs and are silently missing from iterate_images()", line=cnt.lineno))
+            else:
+                rep.ok({"skip": c, "depends_on": "the relationship / its bytes"})
+    if n < 2:
+        raise AnalysisError(f"C14-ALL: only {n} skip conditions found in the relationship loop (not-an-image, no-bytes confirmed)")
+    return rep
+
+
+RULES = [rule_pair, rule_bytes, rule_view, rule_ref, rule_jpeg, rule_chain, rule_type, rule_hex, rule_all]
